@@ -562,4 +562,29 @@ theorem C11_blocking_write_counterexample :
     res.2 = [.unit, .drained [] .nothingRead] ∧ res.1.w.back.data.length = 92 ∧ res.1.w.inW = false := by
   decide +kernel
 
+/-! ### the `Buffer` API on its own -/
+
+/-- For every capacity and every sequence of public `Buffer` operations with
+    arbitrary arguments (`write`, `consume`, `shift`, `grow`, `shrink`, `reset`,
+    `io::Read::read` - including the refusing branches of `grow` / `shrink`
+    that `Channel` never reaches): offsets stay in bounds
+    (`position ≤ end ≤ capacity`, no `usize` underflow) and every single
+    operation treats the pending bytes as a FIFO (`write` appends what fits,
+    `consume` / `read` drop from the front, `reset` clears, `shift` / `grow` /
+    `shrink` keep them). -/
+theorem C11_buffer_ops_in_bounds (c : Nat) (ops : List BOp) :
+    (brun (Buffer.withCapacity c) ops).1.WF ∧
+    ∀ (b : Buffer) (op : BOp), b.WF →
+      (bstep b op).1.WF ∧ (bstep b op).1.data = bspecData b.data b.availSpace op := by
+  refine ⟨?_, fun b op h => bstep_spec b op h⟩
+  have key : ∀ (b : Buffer), b.WF → (brun b ops).1.WF := by
+    induction ops with
+    | nil => intro b h; exact h
+    | cons op ops ih => intro b h; exact ih _ (bstep_spec b op h).1
+  exact key _ (wf_withCapacity c)
+
+example : (brun (Buffer.withCapacity 10)
+    [.write [1, 2, 3, 4, 5, 6, 7, 8], .consume 2, .shrink 3, .grow 5, .read 3, .write [9, 9, 9, 9, 9, 9, 9, 9, 9]]).2
+    = [8, 2, 0, 0, 3, 4] := by decide
+
 end Sozu.Channel
